@@ -139,7 +139,24 @@ func (u *Unit) discharge(o *Obligation, cfg *solverCfg, seq int) {
 	total := 0.0
 	per := cfg.timeout
 	results := map[string]string{}
-	for _, sr := range solvers {
+	use := solvers
+	if o.Expect == "sat" {
+		// reachability canaries only need "not refuted": one solver, short budget
+		per = 2 * time.Second
+		use = solvers[:1]
+	}
+	if o.Kind == "frame" && per > 4*time.Second {
+		per = 4 * time.Second // true frame conditions are easy; false ones (contract gaps) should fail fast
+	}
+	if o.Expect != "sat" && !cfg.agree {
+		// quick: a short first attempt, then the other back ends at full budget, then the first again
+		use = []solverRun{solvers[0], solvers[1], solvers[2], solvers[0]}
+	}
+	for si, sr := range use {
+		per := per
+		if si == 0 && len(use) == 4 && per > 3*time.Second {
+			per = 3 * time.Second
+		}
 		res, out, el := runSolver(sr, file, per)
 		total += el
 		results[sr.name] = res
